@@ -182,7 +182,7 @@ def run(ctx, b, drv):
     if extra:
         pend.add('obligation-failed:write-set', dict(kind='theorem', obligation='write-set allow-list (harness/writeset.py)', new_writes=[list(x) for x in extra]))
     ctx.cov['write_set'] = [list(w) for w in ws]
-    nruns = 10 if ctx.tier == 'quick' else 200
+    nruns = 10 if ctx.tier == 'quick' else 80
     for i in range(nruns):
         r = gens.rng(ctx.seed, 'schedules', i)
         n = r.randint(2, 8)
